@@ -94,7 +94,7 @@ theorem noColon_numText (n : NumLit) (h : n.WF) : ':' ∉ n.text := by
         rw [hf] at hm hfp
         rcases List.mem_cons.mp hm with e | hm
         · exact absurd e (by decide)
-        · exact noColon_digits _ hfp.2 hm
+        · exact noColon_digits _ hfp hm
   · cases he : n.exp with
     | none => rw [he] at hm; cases hm
     | some x =>
@@ -105,7 +105,7 @@ theorem noColon_numText (n : NumLit) (h : n.WF) : ':' ∉ n.text := by
       · exact absurd e (by decide)
       · rcases List.mem_cons.mp hm with e | hm
         · cases ng <;> exact absurd e (by decide)
-        · exact noColon_digits _ hexp.2.1 hm
+        · exact noColon_digits _ hexp.2 hm
 
 theorem upper_ne_colon {c : Char} (h : 'A' ≤ c ∧ c ≤ 'Z') : c ≠ ':' := by
   intro e; subst e; exact absurd h.1 (by decide)
